@@ -17,7 +17,7 @@ def call(kind, cfg, texec, i):
         return 'sasnap %d %d %s' % (cfg, texec, hx(b'standalone %d' % i))
     if kind == 'yaml':
         return 'yaml %d %d s %s' % (cfg, texec, hx(b'k: %d\n' % i))
-    return '%s %d %d s %s' % (kind, cfg, texec, hx(b'{"k":%d}' % i))
+    return '%s %d %d s %s' % (kind, cfg, texec, hx(b'{"k":%d,"arr":[1,2,3],"a":true}' % i))
 
 
 def make_world(tag, seq, opt):
@@ -27,6 +27,10 @@ def make_world(tag, seq, opt):
     w.add(cfg_line(1, 'shared', fn, ext))          # one Config for the whole sequence
     w.add('begin 1 %s' % hx(b'TestCfg'))
     w.add('begin 2 %s' % hx(b'TestCfg'))
+    # a third Config with its own JSON format options, used first: it must not influence the others
+    w.add('cfg 3 %s - - none %s' % (hx('wide'), '80:%s:0' % hx('    ')))
+    w.add('begin 3 %s' % hx(b'TestWide'))
+    w.add('json 3 3 s %s' % hx(b'{"keys":[1,2,3],"b":{"z":1,"a":2}}'))
     pairs = []
     for i, kind in enumerate(seq):
         a = w.add(call(kind, 1, 1, i))
